@@ -38,7 +38,7 @@ def civil_of(a, cury):
     return (a["y"] or cury, a["m"], a["d"])
 
 
-def line_feat(line, cury):
+def line_feat(line, cury, today_days=None):
     f = {"form": line["form"]}
     a = line.get("a", {})
     f["base"] = "rel" if "rel" in a else ("noyear" if a.get("y") == 0 else "full")
@@ -47,8 +47,12 @@ def line_feat(line, cury):
         f["op"] = line["op"]
         f["n"] = line["n"]
         f["total_days"] = line["n"] * {"day": 1, "week": 7, "month": 30, "year": 365}[line["u"]]
-        if "rel" not in a:
-            y, m, d = civil_of(a, cury)
+        if "rel" not in a or today_days is not None:
+            if "rel" in a:
+                dd = datetime.date(1970, 1, 1) + datetime.timedelta(days=today_days + a["rel"])
+                y, m, d = dd.year, dd.month, dd.day
+            else:
+                y, m, d = civil_of(a, cury)
             f["day_of_month"] = d
             if line["u"] == "month":
                 k = line["n"] % 12
@@ -112,7 +116,7 @@ def gen_items(rep, today_days, mode, fake_epoch, quick, tag):
         for lang in render.languages():
             for var, text in renderings(line, lang, gi, line["form"] == "date_lit" and gi % 4 == 0):
                 items.append({"line": line, "text": text, "cfg": CFG, "lang": lang, "expected": c["expected"], "variant": var, "today": fake_epoch,
-                              "feat": line_feat(line, cury or 2000), "class_fn": cls, "nontrivial": line["form"] != "date_lit"})
+                              "feat": line_feat(line, cury or 2000, today_days), "class_fn": cls, "nontrivial": line["form"] != "date_lit"})
     return items
 
 
